@@ -54,8 +54,22 @@ def checks (raw : List (Str × Str)) : List ImpReq :=
   [userCheck (reqUser raw)] ++ (reqGroups raw).map ImpReq.group ++
     (reqExtras raw).flatMap (fun e => e.2.map (ImpReq.extra e.1))
 
-def allAllowed (az : ImpReq → Decision) (raw : List (Str × Str)) : Bool :=
-  (checks raw).all (fun r => (az r).allowed)
+/-- the question the cluster's authorizer has to be asked for one impersonation (verb `impersonate`): impersonated users
+    and groups are cluster-scoped objects of the core group, a service account lives in its namespace, an extra value is the
+    object `userextras/<key>` named by the value in `authentication.k8s.io` — a function of the impersonation alone, never of
+    what else the request asks for -/
+def recordOf : ImpReq → Attrs
+  | .sa ns name => { apiGroup := [], resource := resServiceAccounts, subresource := [], ns := ns, name := name }
+  | .user name => { apiGroup := [], resource := resUsers, subresource := [], ns := [], name := name }
+  | .group name => { apiGroup := [], resource := resGroups, subresource := [], ns := [], name := name }
+  | .extra key value => { apiGroup := authenticationGroup, resource := resUserExtras, subresource := key, ns := [], name := value }
+
+/-- the exact set of attribute records the policy must allow, computed from the client's header lines alone -/
+def requiredRecords (raw : List (Str × Str)) : List Attrs := (checks raw).map recordOf
+
+/-- the cluster's policy `az` allows every required record -/
+def allAllowed (az : Attrs → Decision) (raw : List (Str × Str)) : Bool :=
+  (requiredRecords raw).all (fun a => (az a).allowed)
 
 /-- Kubernetes' rule for the virtual groups of an impersonated user -/
 def augment (u : Str) (gs : List Str) : List Str :=
@@ -84,14 +98,14 @@ inductive Expect where
 deriving DecidableEq, Repr
 
 /-- what the property demands for a request of an authenticated client `u` -/
-def expected (raw : List (Str × Str)) (u : Identity) (az : ImpReq → Decision) : Expect :=
+def expected (raw : List (Str × Str)) (u : Identity) (az : Attrs → Decision) : Expect :=
   if !impersonationRequested raw then .forward u
   else if malformed raw then .answered 500
   else if allAllowed az raw then .forward (requestedIdentity raw)
   else .answered 403
 
 /-- … for any request: a header line the server refuses is answered 400, an unauthenticated client 401 -/
-def expectedFor (raw : List (Str × Str)) (auth : Option Identity) (az : ImpReq → Decision) : Expect :=
+def expectedFor (raw : List (Str × Str)) (auth : Option Identity) (az : Attrs → Decision) : Expect :=
   if !(raw.all (fun l => validName l.1 && validValue l.2)) then .answered 400
   else match auth with
     | none => .answered 401
